@@ -464,6 +464,79 @@ class C16(Check):
                     "alternative; stack machine; dict projection), tied to delphin.derivation by the correspondence "
                     "run including the raw match list of the real _udf_re.finditer"]
 
+    def tables(self):
+        """Pins: the patterns, flags, key names, separators, format strings, numeric defaults and default
+        arguments of the anchored code that lean/Verif/C16/Model.lean hand-codes equivalents of; read
+        from the live module on every run (code objects via co_consts, nested code objects included;
+        docstrings and exception message texts dropped)."""
+        import re as _re
+        import types
+        from .common import tables as TB
+        lit = TB.lean_strlit
+
+        def render(c):
+            # strings as they are; everything else tagged with '#', so that '1' and 1 differ
+            return c if isinstance(c, str) else "#" + repr(c)
+
+        def is_message(c):
+            return isinstance(c, str) and bool(_re.search(r"[A-Za-z]{3,} [A-Za-z(*]{2,}", c))
+
+        def consts(fn):
+            out = []
+
+            def rec(code):
+                for c in code.co_consts:
+                    if isinstance(c, types.CodeType):
+                        rec(c)
+                    elif c == fn.__doc__ and isinstance(c, str):
+                        continue
+                    elif is_message(c):
+                        continue
+                    else:
+                        out.append(render(c))
+            rec(fn.__code__)
+            return out
+
+        def lst(name, xs):
+            return "def %s : List String := [%s]" % (name, ", ".join(lit(x) for x in xs))
+        groups = [k for k, _ in sorted(D._udf_re.groupindex.items(), key=lambda kv: kv[1])]
+        fns = [
+            ("c16FromStringConsts", D._from_string), ("c16UnquoteConsts", D._unquote),
+            ("c16UdfTokensConsts", D._udf_tokens), ("c16FromDictConsts", D._from_dict),
+            ("c16ToUdfConsts", D._to_udf), ("c16ToDictRecConsts", D._to_dict_recursive),
+            ("c16NodeNewConsts", D.UDFNode.__new__), ("c16DerivationInitConsts", D.Derivation.__init__),
+            ("c16IsHeadConsts", D.UDFNode.is_head), ("c16IsRootConsts", D.UDFNode.is_root),
+            ("c16TerminalIsRootConsts", D.UDFTerminal.is_root), ("c16TerminalsConsts", D.UDFNode.terminals),
+            ("c16PreterminalsConsts", D.UDFNode.preterminals), ("c16InternalsConsts", D.UDFNode.internals),
+            ("c16FromStringTopConsts", D.from_string), ("c16FromDictTopConsts", D.from_dict),
+            ("c16ToUdfMethodConsts", D._UDFNodeBase.to_udf), ("c16ToUdxMethodConsts", D._UDFNodeBase.to_udx),
+            ("c16StrConsts", D._UDFNodeBase.__str__), ("c16NodeEqConsts", D.UDFNode.__eq__),
+        ]
+        lines = [
+            "def c16UdfRePattern : String := %s" % lit(D._udf_re.pattern),
+            "def c16UdfReFlags : Nat := %d" % int(D._udf_re.flags),
+            lst("c16UdfReGroups", groups),
+            lst("c16AllFields", D._all_fields),
+            lst("c16NodeFields", D.UDFNode._fields),
+            lst("c16TerminalFields", D.UDFTerminal._fields),
+            lst("c16TokenFields", D.UDFToken._fields),
+        ]
+        for name, fn in fns:
+            lines.append(lst(name, consts(fn)))
+        # which re / str / builtin operations the parsers call (re.DOTALL is a name, not a constant)
+        for name, fn in (("c16UnquoteNames", D._unquote), ("c16UdfTokensNames", D._udf_tokens),
+                         ("c16FromStringNames", D._from_string), ("c16NodeEqNames", D.UDFNode.__eq__)):
+            lines.append(lst(name, fn.__code__.co_names))
+        defaults = []
+        for nm, fn in (("to_udf", D._UDFNodeBase.to_udf), ("to_udx", D._UDFNodeBase.to_udx),
+                       ("to_dict", D._UDFNodeBase.to_dict), ("_to_udf", D._to_udf), ("_from_dict", D._from_dict),
+                       ("from_string", D.from_string), ("from_dict", D.from_dict),
+                       ("UDFNode.__new__", D.UDFNode.__new__), ("Derivation.__init__", D.Derivation.__init__),
+                       ("UDFTerminal.__new__", D.UDFTerminal.__new__), ("UDFToken.__new__", D.UDFToken.__new__)):
+            defaults.append("%s %r %r" % (nm, fn.__defaults__, fn.__kwdefaults__))
+        lines.append(lst("c16Defaults", defaults))
+        return lines
+
     # ---- cases
     def cases(self, rng, tier, n):
         for i, t in enumerate(enum_small_trees()):
